@@ -2,6 +2,7 @@ import SJ.Props.C09
 import SJ.Props.TypedSrc
 import SJ.Props.C09Stream
 import SJ.Props.StreamTyped
+import SJ.Props.C09LineCol
 #print axioms SJ.Props.C09.c09_slice_reader
 #print axioms SJ.Props.C09.c09_str_slice_ignored
 #print axioms SJ.Props.C09.c09_str_slice_value
@@ -22,3 +23,7 @@ import SJ.Props.StreamTyped
 #print axioms SJ.Props.StreamTyped.c09_typed_stream_sources
 #print axioms SJ.Props.StreamTyped.c09_typed_stream_str_slice
 #print axioms SJ.Props.StreamTyped.c09_typed_stream_offsets
+#print axioms SJ.Props.C09.c09_positions_agree
+#print axioms SJ.Props.C09.c09_readers_in_step
+#print axioms SJ.Props.C09.c09_untyped_line_col
+#print axioms SJ.Props.C09.c09_typed_line_col
